@@ -137,10 +137,41 @@ def make_probe(desc, k):
         n = len(c)
         aa = 0 if a == OM else a
         bb = n if b == OM else b
-        ys = [7 + j for j in range(m)] if ykind == "list" else list("pqrstu"[:m])
-        yexpr = A.lst(*[I(v) for v in ys]) if ykind == "list" else S("".join(ys))
+        if ykind == "list":
+            ys = [7 + j for j in range(m)]
+            yexpr = A.lst(*[I(v) for v in ys])
+        elif ykind == "str":
+            ys = list("pqrstu"[:m])
+            yexpr = S("".join(ys))
+        else:
+            # a string with multi-byte characters: m counts BYTES (the elements written are one-byte strings)
+            text = ("é✓p😀q"[: 1 if m <= 2 else (2 if m <= 5 else 3)])
+            raw = text.encode("utf-8")
+            if len(raw) != m:
+                text, raw = "é" * (m // 2) + "p" * (m % 2), ("é" * (m // 2) + "p" * (m % 2)).encode("utf-8")
+            ys = None
+            yexpr = S(text)
         decl = A.Declare(V(x), seq_expr("list", c))
         yn = "y%d" % k
+        if ykind == "mb":
+            ok = 0 <= aa < bb <= n and m == bb - aa
+            what = "%r[%s:%s] = %r (%d bytes)" % (list(c), "" if a == OM else a, "" if b == OM else b, text, m)
+            st = [decl, A.Declare(V(yn), yexpr), A.Assign(A.RangeIndex(V(x), bound_expr(a), bound_expr(b)), V(yn))]
+            if not ok:
+                return {"stmts": st, "expect": None, "tag": "rset_out_mb", "what": what}
+            # the written elements are the bytes of the string: compare through == with single-byte reads, lengths unchanged
+            exp = []
+            for j in range(m):
+                st.append(A.pr(A.Bin("==", A.Index(V(x), I(aa + j)), A.Index(V(yn), I(j)))))
+                exp.append("true")
+            for j in range(n):
+                if not (aa <= j < bb):
+                    st.append(A.pr(A.Index(V(x), I(j))))
+                    exp.append(str(c[j]))
+            st.append(A.pr(A.Bin("==", A.RangeIndex(V(x), I(aa), I(bb)), A.RangeIndex(V(x), I(aa), I(bb)))))
+            exp.append("true")
+            st.append(A.For(V("_"), V(x), []))
+            return {"stmts": st, "expect": exp, "tag": "rset_in_mb", "what": what}
         st = [decl, A.Declare(V(yn), yexpr), A.Assign(A.RangeIndex(V(x), bound_expr(a), bound_expr(b)), V(yn)), A.pr(V(x)),
               A.pr(A.Call(A.Prop(V(yn), "type", True), []))]
         what = "%r[%s:%s] = %r" % (list(c), "" if a == OM else a, "" if b == OM else b, ys if ykind == "list" else "".join(ys))
@@ -201,7 +232,7 @@ def run(rep, tier):
         bounds = list(range(-1, n + 2)) + [OM]
         for a in bounds:
             for b in bounds:
-                for ykind in ("list", "str"):
+                for ykind in ("list", "str", "mb"):
                     for m in range(0, n + 2):
                         if tier == "quick" and n >= 3 and (a, b, m) != (a, b, (0 if b == OM or a == OM else max(0, b - a))) and rng.random() < 0.6:
                             continue
